@@ -39,9 +39,9 @@ def cell_items(idx, c):
     """items computing one cell at run time, and the expected printed line"""
     t = c["t"]
     a, b = "a%d" % idx, "b%d" % idx
-    items = [{"k": "V", "x": a, "t": t, "e": mc.lit(t, c["a"])}]
+    items = [{"k": "V", "x": a, "ty": mc.prim(t), "e": mc.lit(t, c["a"])}]
     if c["mode"] in ("bin", "cmp"):
-        items.append({"k": "V", "x": b, "t": t, "e": mc.lit(t, c["b"])})
+        items.append({"k": "V", "x": b, "ty": mc.prim(t), "e": mc.lit(t, c["b"])})
     if c["mode"] == "bin":
         items.append({"k": "P", "e": mc.binop(c["op"], mc.var(a), mc.var(b))})
     elif c["mode"] == "un":
@@ -161,9 +161,9 @@ def part_cf(rep, tier, seed, layouts):
         chunk = cases[start:start + PACK]
         fns, body, exp, ks = [], [], [], []
         for k, c in enumerate(chunk):
-            items = [{"k": "V", "x": "n", "t": "i32", "e": mc.lit("i32", [0, 0, 0, 0])}]
+            items = [{"k": "V", "x": "n", "ty": mc.prim("i32"), "e": mc.lit("i32", [0, 0, 0, 0])}]
             items += [cf_item(kind, p + 1) for p, kind in enumerate(c["b"])]
-            fns.append({"name": "f%d" % k, "params": [], "ret": "void", "body": items})
+            fns.append({"name": "f%d" % k, "params": [], "ret": mc.VOID, "body": items})
             body += [{"k": "M", "i": k}, {"k": "CALL", "f": "f%d" % k, "args": [], "d": ""}]
             exp.append([mc.shown(v, "i32") for v in c["out"]])
             ks.append("cf " + " ".join(c["b"]))
